@@ -6,8 +6,8 @@ minimally different from the literal.  Oracle: Python == on the exact reference 
 exact value+type of the returned group."""
 from __future__ import annotations
 
-from .. import progcheck
-from ..common import pmap, permuted
+from .. import impl, oracle, progcheck
+from ..common import enc, pmap, permuted, quiet
 from ..enum import lits
 from ..ref import parse as rp
 
@@ -37,6 +37,13 @@ def programs_for(v):
     yield "tuple1eq", ("prog", "e", None, ("u",), ("if", ("cmp", ("id", "f"), "==", ("tup", (L,))), T, F)), [{"u": 1, "f": (x,)} for x in nb] + [{"u": 1, "f": v}]
     yield "tuple1nested", ("prog", "e", None, ("u",), ("if", ("cmp", ("id", "f"), "in", ("tup", (("tup", (L,)), ("lit", "zz")))), T, F)), \
         [{"u": 1, "f": (x,)} for x in nb] + [{"u": 1, "f": v}, {"u": 1, "f": ((v,),)}]  # fmt: skip
+    # a long all-constant tuple is still a tuple (== / nesting / ordering), whatever its length
+    rest = tuple(("lit", k) for k in range(1, 10))
+    big = ("tup", (L,) + rest)
+    yield "tuple10eq", ("prog", "e", None, ("u",), ("if", ("cmp", ("id", "f"), "==", big), T, F)), \
+        [{"u": 1, "f": (x,) + tuple(range(1, 10))} for x in nb[:4]] + [{"u": 1, "f": v}]  # fmt: skip
+    yield "tuple10nested", ("prog", "e", None, ("u",), ("if", ("cmp", ("id", "f"), "in", ("tup", (big, ("lit", "zz")))), T, F)), \
+        [{"u": 1, "f": (x,) + tuple(range(1, 10))} for x in nb[:3]] + [{"u": 1, "f": v}, {"u": 1, "f": "zz"}]  # fmt: skip
     if isinstance(v, str):
         yield "salt", ("prog", "e", v, ("u",), ("ret", tuple((f"g{i}", "1") for i in range(16)))), [{"u": i} for i in range(6)]
 
@@ -70,6 +77,34 @@ def _work(units):
                                 if cl[0] == "accept" and cl[1] == ast:
                                     progcheck.check_prog(acc, ast, envs, f"lit:twin:{pos}", text=text)
             continue
+        if v == "__recompile_pairs__":
+            # ONE evaluator recompiled from a program to its near-identical twin: the twin's literal must take over
+            pairs = [("p q", "p  q"), ("p\x0cq", "p\x0c q"), ("p\rq", "p\r q"), ("p\u2028q", "p\x85q"), ("Pq", "pq"), ("q ", "q"), ("a\tb", "a b"), ("é", "e\u0301"),
+                     ("1", 1), (1, 1.0), (0.0, -0.0), ("//a", "//b"), ("x", "x\u200b"), ("ab", "ab\ufeff"), (10**20, 10**20 + 1), (0.1, 0.10000000000000002)]
+            for a, b in pairs:
+                for first, second in ((a, b), (b, a)):
+                    for (pos, ast1, _e1), (_p2, ast2, envs2) in zip(programs_for(first), programs_for(second)):
+                        if pos not in ("group", "right", "tuple", "salt"):
+                            continue
+                        b1 = impl.build(rp.render(ast1))
+                        if b1[0] != "ok":
+                            continue
+                        text2 = rp.render(ast2)
+                        acc.add("programs")
+                        try:
+                            with quiet():
+                                b1[1].recompile(text2)
+                        except Exception as e:  # noqa
+                            acc.violation({"kind": f"lit:recompile:{pos}", "sub": "build", "text": text2, "before": rp.render(ast1), "observed": f"{type(e).__name__}: {e}"})
+                            continue
+                        for env in envs2:
+                            acc.add("evaluations")
+                            why = oracle.agree(impl.call(b1[1], env), oracle.expected(ast2, env))
+                            if why:
+                                acc.violation({"kind": f"lit:recompile:{pos}", "sub": "eval", "text": text2, "before": rp.render(ast1), "env": enc(env),
+                                               "why": "after recompiling from a near-identical text: " + why})  # fmt: skip
+                                break
+            continue
         if v == "__equal_pairs__":
             for ast, envs in equal_pair_programs():
                 progcheck.check_prog(acc, ast, envs, "lit:equal-neighbours")
@@ -100,7 +135,7 @@ def run(res, tier):
         nums += [i, -i] if i else [0]
     for d in lits.DECS:
         nums += [float(d), -float(d)]
-    units = vals + nums + ["__equal_pairs__", "__comment_twins__"]
+    units = vals + nums + ["__equal_pairs__", "__comment_twins__", "__recompile_pairs__"]
     for w in pmap(_work, permuted(units, "c05"), chunk=8):
         res.merge_worker(w)
     res.set("states", res.cov.get("programs", 0))
@@ -112,4 +147,17 @@ def run(res, tier):
 
 
 def replay(data):
+    if "before" in data:
+        b = impl.build(data["before"])
+        if b[0] != "ok":
+            return False, "the first text no longer compiles"
+        try:
+            b[1].recompile(data["text"])
+        except Exception as e:  # noqa
+            return True, f"recompile raises {type(e).__name__}"
+        from ..common import dec
+
+        cl = rp.classify(data["text"])
+        why = oracle.agree(impl.call(b[1], dec(data["env"])), oracle.expected(cl[1], dec(data["env"])))
+        return bool(why), why or "agrees"
     return progcheck.replay_eval(data)
